@@ -4,11 +4,11 @@ from .lib.core import Unit
 
 ELEMS = {
     'TC': 'arch::TC', 'TRnc': 'arch::TRnc', 'NTR': 'arch::NTR', 'NTRtm': 'arch::NTRtm', 'OptOut': 'arch::OptOut',
-    'MoveOnly': 'arch::MoveOnly', 'int': 'int', 'char': 'char',
+    'MoveOnly': 'arch::MoveOnly', 'int': 'int', 'char': 'char', 'double': 'double',
 }
-COPYABLE = {'TC', 'TRnc', 'NTR', 'NTRtm', 'OptOut', 'int', 'char'}
-RELOC = {'TC', 'TRnc', 'MoveOnly', 'int', 'char'}          # oracle: trivially relocatable archetypes
-TRIV_COPY = {'TC', 'OptOut', 'int', 'char'}
+COPYABLE = {'TC', 'TRnc', 'NTR', 'NTRtm', 'OptOut', 'int', 'char', 'double'}
+RELOC = {'TC', 'TRnc', 'MoveOnly', 'int', 'char', 'double'}          # oracle: trivially relocatable archetypes
+TRIV_COPY = {'TC', 'OptOut', 'int', 'char', 'double'}
 SIZETYPES = {'u8': 'std::uint8_t', 'u16': 'std::uint16_t', 'u32': 'std::uint32_t', 'u64': 'std::uint64_t',
              'i8': 'std::int8_t', 'i32': 'std::int32_t'}
 ALLOCS = {'amc': 'amc::allocator<%s >', 'std': 'std::allocator<%s >', 'realloc': 'arch::ReallocAlloc<%s >',
